@@ -121,8 +121,9 @@ func runC14(c *Ctx) {
 			if par.Type().String() == "context.Context" {
 				continue
 			}
-			if par.Name() == "cacheTTL" {
-				c.Ok("C14-R1", m+":key covers "+par.Name()+" (exempt)", par.Pos(), "cache lifetime does not change the question asked")
+			if par.Type().String() == "time.Duration" {
+				// the only duration handed to these methods is the cache lifetime
+				c.Ok("C14-R1", m+":key covers the time.Duration parameter (exempt)", par.Pos(), "cache lifetime does not change the question asked")
 				continue
 			}
 			mentions := false
@@ -132,7 +133,7 @@ func runC14(c *Ctx) {
 				}
 				return true
 			})
-			c.Check(mentions, "C14-R1", m+":key covers "+par.Name(), keyDef.Pos(), "distinguishing parameter is part of the key", "lock key `"+exprStr(keyDef)+"` ignores parameter "+par.Name()+": different questions serialise, or worse, the cache-fill ordering is per wrong key")
+			c.Check(mentions, "C14-R1", m+":key covers parameter #"+itoa(i)+" ("+paramTypeKey(par.Type())+")", keyDef.Pos(), "distinguishing parameter is part of the key", "lock key `"+exprStr(keyDef)+"` ignores parameter "+par.Name()+": different questions serialise, or worse, the cache-fill ordering is per wrong key")
 		}
 		// key carries the endpoint constant (distinct APIs never share a key)
 		hasPath := false
